@@ -157,6 +157,33 @@ func (a *apiWorld) apiReadPaths(table string, uuids []string) map[string]func() 
 			return listInto(ptrs, func(r interface{}) error { return a.c.WhereAny(m.Interface(), conds...).List(a.ctx, r) })
 		}
 	}
+	// conditionals built once and evaluated again and again: what an evaluation hands out
+	// must not come back from the next one
+	reused := map[string]client.ConditionalAPI{
+		"reused WhereCache(true)": a.c.WhereCache(truePred),
+	}
+	if len(uuids) > 0 {
+		reused["reused Where(models by uuid)"] = a.c.Where(probes()...)
+		m := reflect.New(typ)
+		var conds []model.Condition
+		for _, u := range uuids {
+			conds = append(conds, model.Condition{Field: m.Elem().FieldByName("UUID").Addr().Interface(), Function: ovsdb.ConditionEqual, Value: u})
+		}
+		reused["reused WhereAny(_uuid==)"] = a.c.WhereAny(m.Interface(), conds...)
+	}
+	for name, capi := range reused {
+		capi := capi
+		for _, ptrs := range []bool{false, true} {
+			ptrs := ptrs
+			kind := "[]T"
+			if ptrs {
+				kind = "[]*T"
+			}
+			paths[name+".List("+kind+")"] = func() ([]interface{}, error) {
+				return listInto(ptrs, func(r interface{}) error { return capi.List(a.ctx, r) })
+			}
+		}
+	}
 	paths["Get(uuid)"] = func() ([]interface{}, error) {
 		var out []interface{}
 		for _, m := range probes() {
